@@ -52,7 +52,7 @@ Cfg_live == { Cfg(1, m, f, T, <<E2, EJ>>) : m \in Modes, f \in {<<>>, <<T>>, <<T
 Next == \/ \E t \in Thr : Step(t, MOf)
         \/ (AllDone /\ UNCHANGED vars)
 Spec == Init /\ [][Next]_vars
-FairSpec == Spec /\ \A t \in 0..12 : WF_vars(t \in Thr /\ Step(t, MOf))
+FairSpec == Spec /\ \A t \in 0..8 : WF_vars(t \in Thr /\ Step(t, MOf))
 
 \* hide the ghost event from the state identity
 View == <<cfg, ms, pc, L, Q, H>>
